@@ -4,7 +4,7 @@ from symx.api import *
 PROPERTY = 'C07'
 LEVEL = 'other'
 FILES = ['mesonbuild/options.py']
-ENCODED = ['options.OptionKey', 'UserOption.validate_value/set_value/listify (integer, boolean, combo, string, array, feature)', 'OptionStore.init_builtins/add_system_option/'
+ENCODED = ['UserStdOption.set_versions / validate_value', 'options.OptionKey', 'UserOption.validate_value/set_value/listify (integer, boolean, combo, string, array, feature)', 'OptionStore.init_builtins/add_system_option/'
            'add_project_option', 'OptionStore.initialize_from_top_level_project_call/first_handle_prefix/prefix_split_options/hard_reset_from_prefix',
            'OptionStore.initialize_from_subproject_call', 'OptionStore.set_user_option/set_option (sanitisation, validate, readonly, buildtype expansion)/reset_prefixed_options',
            'OptionStore.get_value_for/get_option_and_value_for/resolve_option', 'sanitize_prefix/sanitize_dir_option_value']
